@@ -27,6 +27,7 @@ pub struct Hz {
     pub side: Vec<String>,
     /// tick automata: key -> times answered true since last reset
     pub ticks: HashMap<String, u32>,
+    pub tocks: HashMap<String, u32>,
     /// answers served by `cap` in order (then "true")
     pub cap_answers: Vec<String>,
     pub cap_next: usize,
@@ -154,7 +155,7 @@ pub fn tick_step(ticks: &mut HashMap<String, u32>, key: &str, n: u32) -> bool {
     }
 }
 
-simple_command!(TickCmd, "hz::Tick", ["tick", "tock"], |c| {
+simple_command!(TickCmd, "hz::Tick", ["tick"], |c| {
     let r = with_hz(|h| {
         let key = c.arguments.get(0).cloned().unwrap_or_default();
         let n: u32 = c.arguments.get(1).and_then(|s| s.parse().ok()).unwrap_or(0);
@@ -170,11 +171,29 @@ simple_command!(TickCmd, "hz::Tick", ["tick", "tock"], |c| {
     CommandResult::Continue(Some(if r { "true".into() } else { "false".into() }))
 });
 
+/// `tock k n`: answers false n times, then true once (and re-arms).
+simple_command!(TockCmd, "hz::Tock", ["tock"], |c| {
+    let r = with_hz(|h| {
+        let key = c.arguments.get(0).cloned().unwrap_or_default();
+        let n: u32 = c.arguments.get(1).and_then(|s| s.parse().ok()).unwrap_or(0);
+        h.trace.push(Event {
+            cmd: "tock".into(),
+            args: c.arguments.clone(),
+            line: c.line,
+            out: c.output_variable.clone(),
+        });
+        note_invocation(h, c.variables);
+        crate::flow::tock_step(&mut h.tocks, &key, n)
+    });
+    CommandResult::Continue(Some(if r { "true".into() } else { "false".into() }))
+});
+
 pub fn register_harness_commands(commands: &mut Commands) {
     commands.set(Box::new(EmitCmd)).unwrap();
     commands.set(Box::new(CapCmd)).unwrap();
     commands.set(Box::new(PutCmd)).unwrap();
     commands.set(Box::new(TickCmd)).unwrap();
+    commands.set(Box::new(TockCmd)).unwrap();
 }
 
 /// A fresh context with the full SDK and the harness commands (cloned from a per-thread base).
@@ -211,11 +230,15 @@ impl Write for SharedBuf {
     }
 }
 
+/// native nesting of run_instruction allowed per run (nested evaluation); far above what generated programs need
+pub const NEST_LIMIT: usize = 600;
+
 pub struct RunOut {
     pub result: Result<Context, ScriptError>,
     pub out: String,
     pub fuel_exhausted: bool,
     pub fuel_used: u64,
+    pub depth_exceeded: bool,
 }
 
 pub fn make_env(halt: Option<Arc<AtomicBool>>) -> (Env, SharedBuf) {
@@ -227,32 +250,40 @@ pub fn make_env(halt: Option<Arc<AtomicBool>>) -> (Env, SharedBuf) {
 pub fn run_text(text: &str, ctx: Context, fuel: u64, halt: Option<Arc<AtomicBool>>) -> RunOut {
     let (env, out) = make_env(halt);
     runner::verif_fuel::set(fuel);
+    runner::verif_fuel::set_depth_limit(NEST_LIMIT);
     let result = runner::run_script(text, ctx, Some(env));
     let fuel_exhausted = runner::verif_fuel::exhausted();
     let fuel_used = runner::verif_fuel::used();
+    let depth_exceeded = runner::verif_fuel::depth_exceeded();
     runner::verif_fuel::set(u64::MAX);
+    runner::verif_fuel::set_depth_limit(usize::MAX);
     let o = String::from_utf8_lossy(&out.0.borrow()).to_string();
     RunOut {
         result,
         out: o,
         fuel_exhausted,
         fuel_used,
+        depth_exceeded,
     }
 }
 
 pub fn run_file(path: &str, ctx: Context, fuel: u64, halt: Option<Arc<AtomicBool>>) -> RunOut {
     let (env, out) = make_env(halt);
     runner::verif_fuel::set(fuel);
+    runner::verif_fuel::set_depth_limit(NEST_LIMIT);
     let result = runner::run_script_file(path, ctx, Some(env));
     let fuel_exhausted = runner::verif_fuel::exhausted();
     let fuel_used = runner::verif_fuel::used();
+    let depth_exceeded = runner::verif_fuel::depth_exceeded();
     runner::verif_fuel::set(u64::MAX);
+    runner::verif_fuel::set_depth_limit(usize::MAX);
     let o = String::from_utf8_lossy(&out.0.borrow()).to_string();
     RunOut {
         result,
         out: o,
         fuel_exhausted,
         fuel_used,
+        depth_exceeded,
     }
 }
 
